@@ -172,6 +172,26 @@ func runC08(c *Ctx) {
 		}
 	}
 
+	// lookups by hash (…FromHash) return nil when the object is not in the local store: no method call on such a result without a nil test
+	for _, d := range []*ssa.Function{dec, c.fn("block", "blockV2Handler", "NewBlockFromHeaderReader")} {
+		if d == nil {
+			continue
+		}
+		for _, b := range d.Blocks {
+			for _, in := range b.Instrs {
+				call, ok := in.(*ssa.Call)
+				if !ok || !call.Common().IsInvoke() {
+					continue
+				}
+				src, isCall := call.Common().Value.(*ssa.Call)
+				if !isCall || !strings.HasSuffix(methodName(src.Common()), "FromHash") || src.Common().Signature().Results().Len() != 1 {
+					continue
+				}
+				c.requireAt("C08.nil-discipline", d.Name()+": "+methodName(call.Common())+" on the result of "+methodName(src.Common()), call, wDiffer("value != nil", "^"+regexpQuote(render(src))+"$", `^nil$`))
+			}
+		}
+	}
+
 	// ---- the returned block literal
 	var lit *ssa.Alloc
 	for _, e := range succ {
@@ -332,6 +352,44 @@ func runC08(c *Ctx) {
 		}
 	}
 
+	// ---- body-bijection: the body writer fills each format field from the block field of the same name
+	if bf := c.mustFn("block", "blockV2", "_bodyFormat"); bf != nil {
+		n := 0
+		for _, st := range fieldStoresAny([]*ssa.Function{bf}, "V2BodyFormat") {
+			x := fieldName(st.Addr.X.Type(), st.Addr.Field)
+			want := strings.ToLower(x[:1]) + x[1:]
+			if x == "BTPDigest" {
+				want = "BTPDigest()"
+			}
+			n++
+			okF := false
+			src := ""
+			for _, fl := range flowsOf(st.Store.Val, nil) {
+				src = render(fl.Src)
+				if strings.Contains(src, "$r."+want) {
+					okF = true
+				}
+			}
+			c.check(okF, "C08.body-bijection", "body."+x+" is written from block."+want, st.Store.Pos(), src, "body."+x+" is written from "+src+": the body no longer matches the hashes in the header and the block does not decode")
+		}
+		c.check(n == 4, "C08.body-bijection", "body format fields", bf.Pos(), "4", fmt.Sprint(n))
+	}
+	// ---- version dispatch: an unknown version is an error, never another handler
+	if fn := c.mustFn("block", "blockDataFactory", "NewBlockDataFromReader"); fn != nil {
+		for _, cs := range c.calls(fn, byMethod("NewBlockDataFromReader")) {
+			c.requireAt("C08.version-dispatch", "decoding only with the handler registered for the peeked version", cs.Instr, wTrue("handler found", `\.forVersion\(.*\)#1$`))
+			r, _ := callArgs(cs.Common())
+			c.check(strings.HasSuffix(render(r), ".forVersion(block.PeekVersion($0)#0)#0"), "C08.version-dispatch", "the handler is the one looked up for that version", cs.Pos(), render(r), "handler is "+render(r))
+		}
+	}
+	// ---- the network-section filter in the header agrees with the digest in the body
+	if dec := c.fn("block", "blockV2Handler", "NewBlockDataFromReader"); dec != nil {
+		for _, e := range successAlts(dec) {
+			_, okF := holds(e.Guards, wSame("header filter = filter of the body digest", `\.NSFilter$`, `\.NetworkSectionFilter\(\)\.Bytes\(\)$`))
+			c.check(okF, "C08.body-binding", "decoded block ⊢ header.NSFilter = filter derived from the body's BTP digest", e.pos(), "bytes.Equal(header.NSFilter, bd.NetworkSectionFilter().Bytes())", "a block whose header filter disagrees with its digest is accepted")
+		}
+	}
+
 	// ---- id-hash
 	if id := c.mustFn("block", "blockV2", "ID"); id != nil {
 		okID := false
@@ -388,4 +446,21 @@ func runC08(c *Ctx) {
 			c.check(len(diff) == 0, "C08.constructor-siblings", n+" sets the same fields as NewBlock", token.NoPos, fmt.Sprintf("%d fields", len(s)), "field set differs: "+strings.Join(diff, " "))
 		}
 	}
+}
+
+func headerFieldType(h ssa.Value, field string) types.Type {
+	pt, ok := h.Type().Underlying().(*types.Pointer)
+	if !ok {
+		return nil
+	}
+	st, ok := pt.Elem().Underlying().(*types.Struct)
+	if !ok {
+		return nil
+	}
+	for i := 0; i < st.NumFields(); i++ {
+		if st.Field(i).Name() == field {
+			return st.Field(i).Type()
+		}
+	}
+	return nil
 }
